@@ -17,7 +17,8 @@ CONSTANTS Years, SampleEvery, GenMode, GenDense, GenSparse
 VARIABLES day, pick
 mcvars == <<cur, last, day, pick>>
 
-YearsQuick == {1970, 1971, 1972, 1999, 2000, 2001, 2037, 2038, 2099, 2100, 2101, 2399, 2400, 2401, 2553, 2554, 9996, 9999}
+YearsQuick == (1970..1976) \cup (1996..2004) \cup (2036..2040) \cup (2096..2104) \cup (2196..2204) \cup (2396..2404) \cup {2553, 2554, 2555}
+              \cup {3999, 4000, 4001, 7999, 8000, 8001} \cup (9990..9999)
 YearsAll == 1970..9999
 YearsA == 1970..3999
 YearsB == 4000..6999
